@@ -162,11 +162,12 @@ def module_text(cond_text, lam_params, role="require", is_async=False, descripti
 
 
 class Module:
-    def __init__(self, text):
+    def __init__(self, text, path=None):
         self.text = text
         h = hashlib.sha1(text.encode()).hexdigest()[:10]
         self.modname = "vfexpr_%s_%d" % (h, next(_counter))
-        self.path = os.path.join(scratch_dir(), self.modname + ".py")
+        # ``path``: write the module where another one was before (a source file edited and imported again)
+        self.path = path or os.path.join(scratch_dir(), self.modname + ".py")
         with open(self.path, "w") as fh:
             fh.write(text)
         self.mod = types.ModuleType(self.modname)
